@@ -25,8 +25,11 @@
 
 enum { PATH = 0x40, IOV = 0x100, BUFS = 0x200, BUFSTEP = 0x20, RES = 0x400, STAT = 0x500, GUEST = 8192, FILL = 0xAA };
 
-static const int shapeN[6] = {0, 1, 1, 3, 3, 2};
-static const U32 shapeLen[6][3] = {{0, 0, 0}, {3, 0, 0}, {0, 0, 0}, {2, 0, 3}, {1, 1, 1}, {2, 3, 0}};
+static const int shapeN[8] = {0, 1, 1, 3, 3, 2, 1, 1};
+static const U32 shapeLen[8][3] = {{0, 0, 0}, {3, 0, 0}, {0, 0, 0}, {2, 0, 3}, {1, 1, 1}, {2, 3, 0}, {3, 0, 0}, {3, 0, 0}};
+/* shapes 6 and 7 are shape 1 with the RESULT cell (nwritten / nread) on top of an input of the same call: 6 = on the buf_len field of the
+   iovec, 7 = on the data buffer.  All inputs are read before the result is stored (the twin's inputs are separate host objects anyway). */
+static U32 resPtr(int shape) { return shape == 6 ? 0x100 + 4 : shape == 7 ? 0x200 : 0x400; }
 /* shape 5: the second segment ends exactly at the last byte of guest memory (buf + len == memory size is in bounds) */
 static U32 segAddr(int shape, int j) { return shape == 5 && j == 1 ? GUEST - 3 : BUFS + j * BUFSTEP; }
 static U32 segSpan(int shape, int j) { return shape == 5 && j == 1 ? 3 : BUFSTEP; }
@@ -107,6 +110,13 @@ static void compareWorld(void) {
         off_t ip = lseek(nativeFd(live[i].wfd), 0, SEEK_CUR), tp = lseek(live[i].tfd, 0, SEEK_CUR);
         if (ip != tp) { fprintf(hx_out, "X %d position fd=%u impl=%lld want=%lld\n", step, live[i].wfd, (long long)ip, (long long)tp); failed = 1; }
     }
+    /* what each live descriptor is open on (the file may have lost or changed its name): contents through the descriptors */
+    for (i = 0; i < nlive; i++) {
+        if (!strcmp(live[i].name, "sub")) continue;
+        snprintf(p, sizeof p, "/proc/self/fd/%d", nativeFd(live[i].wfd)); tw_file_canon(p, a, sizeof a);
+        snprintf(p, sizeof p, "/proc/self/fd/%d", live[i].tfd); tw_file_canon(p, b, sizeof b);
+        if (strcmp(a, b) != 0) { fprintf(hx_out, "X %d contents-of-open-file fd=%u impl=%s want=%s\n", step, live[i].wfd, a, b); failed = 1; }
+    }
     for (i = 0; i < 2; i++) {
         snprintf(p, sizeof p, "%s/%s", dirA, names[i]); tw_file_canon(p, a, sizeof a);
         snprintf(p, sizeof p, "%s/%s", dirB, names[i]); tw_file_canon(p, b, sizeof b);
@@ -119,8 +129,13 @@ static void printState(void) {
     int i;
     snprintf(p, sizeof p, "%s/f", dirA); tw_file_canon(p, a, sizeof a); fprintf(hx_out, "STATE f=%s", a);
     snprintf(p, sizeof p, "%s/g", dirA); tw_file_canon(p, a, sizeof a); fprintf(hx_out, "|g=%s|", a);
-    for (i = 0; i < nlive; i++)
-        fprintf(hx_out, "%s:%d:%d:%lld;", live[i].name, live[i].rights, live[i].append, (long long)lseek(live[i].tfd, 0, SEEK_CUR));
+    for (i = 0; i < nlive; i++) {
+        struct stat st; char c[8192] = "";
+        /* ... and the file behind the descriptor: link count and contents (it may be unlinked or renamed by now) */
+        if (fstat(live[i].tfd, &st) != 0) st.st_nlink = 99;
+        if (strcmp(live[i].name, "sub")) { snprintf(p, sizeof p, "/proc/self/fd/%d", live[i].tfd); tw_file_canon(p, c, sizeof c); }
+        fprintf(hx_out, "%s:%d:%d:%lld:%d:%s;", live[i].name, live[i].rights, live[i].append, (long long)lseek(live[i].tfd, 0, SEEK_CUR), (int)st.st_nlink, c);
+    }
     fprintf(hx_out, "\nINFO live");
     for (i = 0; i < nlive; i++) fprintf(hx_out, " %u:%s", live[i].wfd, live[i].name);
     fprintf(hx_out, "\n");
@@ -184,11 +199,11 @@ static void run(char* history) {
             shape = atoi(f[2]);
             name = f[0][0] == 'W' ? "fd_pwrite" : "fd_write";
             marshal(shape, 1, tv);
-            hx_allow(RES, 4);
-            if (f[0][0] == 'W') { e = NS(ns, fd_pwrite)(I, wfd, IOV, shapeN[shape], (U64)off, RES); tn = pwritev(tfd, tv, shapeN[shape], off); }
-            else { e = NS(ns, fd_write)(I, wfd, IOV, shapeN[shape], RES); tn = writev(tfd, tv, shapeN[shape]); }
+            hx_allow(resPtr(shape), 4);
+            if (f[0][0] == 'W') { e = NS(ns, fd_pwrite)(I, wfd, IOV, shapeN[shape], (U64)off, resPtr(shape)); tn = pwritev(tfd, tv, shapeN[shape], off); }
+            else { e = NS(ns, fd_write)(I, wfd, IOV, shapeN[shape], resPtr(shape)); tn = writev(tfd, tv, shapeN[shape]); }
             terr = tn < 0 ? tw_errno(errno) : 0;
-            if (e == 0 && terr == 0) { if (hx_u32(RES) != (U32)tn) differ("nwritten", hx_u32(RES), tn); snprintf(det, sizeof det, "nwritten=%u", hx_u32(RES)); }
+            if (e == 0 && terr == 0) { if (hx_u32(resPtr(shape)) != (U32)tn) differ("nwritten", hx_u32(resPtr(shape)), tn); snprintf(det, sizeof det, "nwritten=%u", hx_u32(resPtr(shape))); }
             break;
         }
         case 'r': case 'R': {
@@ -196,14 +211,14 @@ static void run(char* history) {
             shape = atoi(f[2]);
             name = f[0][0] == 'R' ? "fd_pread" : "fd_read";
             marshal(shape, 0, tv);
-            hx_allow(RES, 4);
-            if (f[0][0] == 'R') { e = NS(ns, fd_pread)(I, wfd, IOV, shapeN[shape], (U64)off, RES); tn = preadv(tfd, tv, shapeN[shape], off); }
-            else { e = NS(ns, fd_read)(I, wfd, IOV, shapeN[shape], RES); tn = readv(tfd, tv, shapeN[shape]); }
+            hx_allow(resPtr(shape), 4);
+            if (f[0][0] == 'R') { e = NS(ns, fd_pread)(I, wfd, IOV, shapeN[shape], (U64)off, resPtr(shape)); tn = preadv(tfd, tv, shapeN[shape], off); }
+            else { e = NS(ns, fd_read)(I, wfd, IOV, shapeN[shape], resPtr(shape)); tn = readv(tfd, tv, shapeN[shape]); }
             terr = tn < 0 ? tw_errno(errno) : 0;
             if (e == 0 && terr == 0) {
-                if (hx_u32(RES) != (U32)tn) differ("nread", hx_u32(RES), tn);
-                compareBuffers(shape);
-                snprintf(det, sizeof det, "nread=%u", hx_u32(RES));
+                if (hx_u32(resPtr(shape)) != (U32)tn) differ("nread", hx_u32(resPtr(shape)), tn);
+                if (shape != 7) compareBuffers(shape);
+                snprintf(det, sizeof det, "nread=%u", hx_u32(resPtr(shape)));
             }
             break;
         }
@@ -228,6 +243,24 @@ static void run(char* history) {
             e = NS(ns, fd_filestat_get)(I, wfd, STAT);
             terr = fstat(tfd, &st) != 0 ? tw_errno(errno) : 0;
             if (e == 0 && terr == 0) { compareStat(ns, wfd, d); snprintf(det, sizeof det, "filetype=%u size=%llu", hx_mem.data[STAT + 16], (unsigned long long)st.st_size); }
+            break;
+        }
+        case 'u': {     /* u,<name>,<ns>: the name goes away; descriptors that are open on the file keep working on it */
+            char q[700];
+            name = "path_unlink_file";
+            hx_put(PATH, f[1], strlen(f[1])); hx_snapshot();
+            e = NS(ns, path_unlink_file)(I, 3, PATH, strlen(f[1]));
+            snprintf(q, sizeof q, "%s/%s", dirB, f[1]);
+            terr = unlink(q) != 0 ? tw_errno(errno) : 0;
+            break;
+        }
+        case 'n': {     /* n,<old>,<new>,<ns>: rename inside the pre-opened directory */
+            char q[700], q2[700];
+            name = "path_rename";
+            hx_put(PATH, f[1], strlen(f[1])); hx_put(PATH + 16, f[2], strlen(f[2])); hx_snapshot();
+            e = NS(ns, path_rename)(I, 3, PATH, strlen(f[1]), 3, PATH + 16, strlen(f[2]));
+            snprintf(q, sizeof q, "%s/%s", dirB, f[1]); snprintf(q2, sizeof q2, "%s/%s", dirB, f[2]);
+            terr = rename(q, q2) != 0 ? tw_errno(errno) : 0;
             break;
         }
         case 'c':
